@@ -1896,3 +1896,32 @@ mod tests {
         assert!(r.is_empty());
     }
 }
+
+// Verification hook (C03). Add-only and behaviour neutral; only compiled with `verif-hooks`.
+#[cfg(feature = "verif-hooks")]
+#[allow(clippy::items_after_test_module)]
+impl IdlSqliteWriteTransaction {
+    /// Raw content of a two-column text table of the index database (name tables),
+    /// read straight from SQLite: `SELECT k, v FROM <table>`.
+    pub(crate) fn verif_c03_text_table(
+        &self,
+        table: &str,
+        kcol: &str,
+        vcol: &str,
+    ) -> Result<Vec<(String, String)>, OperationError> {
+        let mut stmt = self
+            .get_conn()?
+            .prepare(&format!(
+                "SELECT {}, {} FROM {}.{}",
+                kcol,
+                vcol,
+                self.get_db_name(),
+                table
+            ))
+            .map_err(sqlite_error)?;
+        let rows = stmt
+            .query_map([], |row| Ok((row.get::<_, String>(0)?, row.get::<_, String>(1)?)))
+            .map_err(sqlite_error)?;
+        rows.map(|r| r.map_err(sqlite_error)).collect()
+    }
+}
